@@ -54,6 +54,18 @@ data: NAME "," NAME
 NAME: /[a-z][a-z]+/
 %ignore " "
 ''', ['t', 'x', 's', 'v', 'ab', ';', ',', 'cd']),
+    # adjacent tokens without punctuation between them (digits at the boundary); a string literal handed to an inlined ! template as
+    # an argument (kept in the tree although the literal was written in a rule that filters it)
+    'adj': ('''
+start: (vec | lst)+
+vec: "vec" NAME NUM+ ";"
+lst: "[" _sep{item, ","} "]" ";"
+!_sep{x, s}: x (s x)*
+item: NAME | NUM
+NAME: /[a-z]+/
+NUM: /[0-9]+/
+%ignore " "
+''', ['vec', 'v', '1', '22', ';', '[', ']', ',']),
     'json': ('''
 ?start: value
 ?value: dict | list | STR | NUM | "true" -> t | "null" -> n
@@ -169,7 +181,7 @@ def plan(tier, seed):
         k = len(lex)
         for parser in ('lalr', 'earley'):
             Lg = 5 if quick else 7
-            if g == 'show' and parser == 'lalr':
+            if g in ('show', 'adj') and parser == 'lalr':
                 Lg += 1         # 'a = a + a ;' has six lexemes
             for pin in [None]:
                 slices.append({'id': '%s:%s:L%d' % (g, parser, Lg), 'mode': 'realised', 'params': {'g': g, 'parser': parser, 'L': Lg, 'pin': pin, 'mode': 'realised'},
